@@ -20,6 +20,7 @@ from __future__ import annotations
 
 import contextlib
 import io
+import re
 import traceback
 
 import numpy as np
@@ -130,7 +131,8 @@ def build_tf(c):
       merge_dims=c["merge_dims"],
       second_order_type=(tf_so.SecondOrderType.SKETCHY if c["so"] == "sketchy"
                          else tf_so.SecondOrderType.SHAMPOO),
-      shampoo_options=sh, sketchy_options=sk if c["so"] == "sketchy" else None)
+      shampoo_options=sh,
+      sketchy_options=sk if c["so"] == "sketchy" and not c.get("sk_none", False) else None)
   mo = tf_mom.Options(ema=c["ema"], nesterov=c["nesterov"], momentum_decay=c["mom_8"] / 8.0,
                       weight_decay=c["wd_8"] / 8.0, weight_decay_after_momentum=c["wd_after"])
   return tf_opt.tearfree(_lr(c), tf_opt.TearfreeOptions(
@@ -168,11 +170,21 @@ def _is_namedtuple(x):
   return isinstance(x, tuple) and hasattr(x, "_fields")
 
 
+NIL = {"ty": "nil"}
+
+
+def _slot(v, strip):
+  """A QuantizedValue slot: [] means unused."""
+  if isinstance(v, list) and not v:
+    return dict(NIL)
+  return sig(v, strip)
+
+
 def sig(x, strip=None):
   """strip: number of devices whose leading axis is removed from every leaf (pmap)."""
   if isinstance(x, QuantizedValue):
-    return {"ty": "QV", "q": sig(x.quantized, strip), "dg": sig(x.diagonal, strip),
-            "b": sig(x.bucket_size, strip), "qd": _dt(x.quantized_dtype),
+    return {"ty": "QV", "q": _slot(x.quantized, strip), "dg": _slot(x.diagonal, strip),
+            "b": _slot(x.bucket_size, strip), "qd": _dt(x.quantized_dtype),
             "ex": bool(x.extract_diagonal), "sh": [int(v) for v in x.shape]}
   if isinstance(x, ds.TrainingMetrics):
     leaves = jax.tree.leaves(x)
@@ -199,10 +211,7 @@ def sig(x, strip=None):
       out[f] = sig(getattr(x, f), strip)
     return out
   if isinstance(x, dict):
-    out = {"ty": "dict"}
-    for k in x:
-      out[str(k)] = sig(x[k], strip)
-    return out
+    return {"ty": "dict", "v": [sig(x[k], strip) for k in sorted(x)]}
   if isinstance(x, tuple):
     return {"ty": "tuple", "v": [sig(v, strip) for v in x]}
   if isinstance(x, list):
@@ -224,6 +233,12 @@ def _static(v):
   return _dt(v)
 
 
+def _dslot(v):
+  if isinstance(v, list) and not v:
+    return dict(NIL)
+  return sig_declared(v)
+
+
 def sig_declared(x):
   """Signature of the tree returned by sharded_init_shape_and_dtype_fn: a leaf is
   [shape_list, dtype]; [] is "no leaf" (as in QuantizedValue's unused slots)."""
@@ -231,8 +246,8 @@ def sig_declared(x):
       all(isinstance(v, (int, np.integer)) for v in x[0]) and not isinstance(x[1], (list, tuple, dict)):
     return {"s": [int(v) for v in x[0]], "d": _dt(x[1])}
   if isinstance(x, QuantizedValue):
-    return {"ty": "QV", "q": sig_declared(x.quantized), "dg": sig_declared(x.diagonal),
-            "b": sig_declared(x.bucket_size), "qd": _dt(x.quantized_dtype),
+    return {"ty": "QV", "q": _dslot(x.quantized), "dg": _dslot(x.diagonal),
+            "b": _dslot(x.bucket_size), "qd": _dt(x.quantized_dtype),
             "ex": bool(x.extract_diagonal), "sh": [int(v) for v in x.shape]}
   if isinstance(x, ds.TrainingMetrics):
     leaves = jax.tree.leaves(x, is_leaf=lambda v: isinstance(v, list) and len(v) == 2 and isinstance(v[0], list))
@@ -257,10 +272,7 @@ def sig_declared(x):
       out[f] = sig_declared(getattr(x, f))
     return out
   if isinstance(x, dict):
-    out = {"ty": "dict"}
-    for k in x:
-      out[str(k)] = sig_declared(x[k])
-    return out
+    return {"ty": "dict", "v": [sig_declared(x[k]) for k in sorted(x)]}
   if isinstance(x, tuple):
     return {"ty": "tuple", "v": [sig_declared(v) for v in x]}
   if isinstance(x, list):
@@ -275,8 +287,8 @@ def skeleton(x, is_spec=False):
   if is_spec and isinstance(x, PartitionSpec):
     return "L"
   if isinstance(x, QuantizedValue):
-    return {"ty": "QV", "q": skeleton(x.quantized, is_spec), "dg": skeleton(x.diagonal, is_spec),
-            "b": skeleton(x.bucket_size, is_spec)}
+    sl = lambda v: dict(NIL) if (v is None or (isinstance(v, list) and not v)) else skeleton(v, is_spec)
+    return {"ty": "QV", "q": sl(x.quantized), "dg": sl(x.diagonal), "b": sl(x.bucket_size)}
   if isinstance(x, ds.TrainingMetrics):
     n = len(jax.tree.leaves(x, is_leaf=(lambda v: isinstance(v, PartitionSpec)) if is_spec else None))
     return {"ty": "TM", "nl": n, "fd": isinstance(x.fd, ds.FDDiagnostics)}
@@ -295,7 +307,7 @@ def skeleton(x, is_spec=False):
       out[f] = skeleton(getattr(x, f), is_spec)
     return out
   if isinstance(x, dict):
-    return {"ty": "dict", **{str(k): skeleton(v, is_spec) for k, v in x.items()}}
+    return {"ty": "dict", "v": [skeleton(x[k], is_spec) for k in sorted(x)]}
   if isinstance(x, tuple):
     return {"ty": "tuple", "v": [skeleton(v, is_spec) for v in x]}
   if isinstance(x, list):
@@ -328,6 +340,11 @@ def first_diff(a, b, path=""):
         return d
     return None
   return None if a == b else (path, a, b)
+
+
+def norm_path(p):
+  """Path with indices removed: stable part of a violation key."""
+  return re.sub(r"\[\d+\]", "[]", p or "")
 
 
 def _short(v, n=160):
@@ -448,16 +465,18 @@ def run(job, res):
       raise Failure("sharded_fns", e)
     d = first_diff(_drop_static_shape(res["layout"]), _drop_static_shape(sig_declared(decl)))
     if d:
-      clauses.append({"clause": "sharded_declared", "detail": f"at {d[0]}: init_fn has {_short(d[1])}, "
+      clauses.append({"clause": "sharded_declared", "path": norm_path(d[0]),
+                      "detail": f"at {d[0]}: init_fn has {_short(d[1])}, "
                       f"shape_and_dtype_fn declares {_short(d[2])}"})
     d = first_diff(skeleton(state0), skeleton(pspec, True))
     if d:
-      clauses.append({"clause": "sharded_pspec", "detail": f"at {d[0]}: init_fn has {_short(d[1])}, "
+      clauses.append({"clause": "sharded_pspec", "path": norm_path(d[0]),
+                      "detail": f"at {d[0]}: init_fn has {_short(d[1])}, "
                       f"pspec_fn has {_short(d[2])}"})
     # ranks of the partition specs must not exceed the ranks of the leaves they annotate
     bad = _pspec_rank_mismatch(state0, pspec)
     if bad:
-      clauses.append({"clause": "sharded_pspec", "detail": bad})
+      clauses.append({"clause": "sharded_pspec", "path": "rank", "detail": bad})
 
   # ---- Update x T -----------------------------------------------------------------------
   state = state0
@@ -470,7 +489,7 @@ def run(job, res):
       raise Failure("update", e, t)
     if not _same_layout(new_state, state0):
       d = first_diff(sig(state0, strip), sig(new_state, strip))
-      clauses.append({"clause": "state_layout_changed",
+      clauses.append({"clause": "state_layout_changed", "path": norm_path(d[0]) if d else "treedef",
                       "detail": f"after update {t + 1}: " + (f"at {d[0]}: {_short(d[1])} -> {_short(d[2])}" if d
                                                              else "tree structure differs (container types)")})
       state = new_state
@@ -478,7 +497,7 @@ def run(job, res):
       break
     if not _same_layout(u, the_params):
       d = first_diff(sig(the_params), sig(u))
-      clauses.append({"clause": "updates_layout",
+      clauses.append({"clause": "updates_layout", "path": norm_path(d[0]) if d else "treedef",
                       "detail": f"update {t + 1}: " + (f"at {d[0]}: params {_short(d[1])} vs updates {_short(d[2])}"
                                                        if d else "tree structure differs")})
     state = new_state
@@ -510,7 +529,8 @@ def run(job, res):
     except Exception as e:     # pylint: disable=broad-except
       raise Failure("scan", e)
     if not _same_layout(sT, state0):
-      clauses.append({"clause": "scan_carry", "detail": "final carry layout differs from the initial state"})
+      clauses.append({"clause": "scan_carry", "path": "",
+                      "detail": "final carry layout differs from the initial state"})
   return res
 
 
